@@ -4,10 +4,13 @@ import (
 	"errors"
 	"fmt"
 	"io"
+	"os"
 	"strings"
+	"syscall"
 
 	"github.com/llir/llvm/ir"
 	"github.com/llir/llvm/ir/constant"
+	"github.com/llir/llvm/ir/metadata"
 	"github.com/llir/llvm/ir/types"
 
 	"verif/internal/corpus"
@@ -19,8 +22,9 @@ var errSentinel = errors.New("verif: injected writer failure")
 // faultWriter accepts exactly limit bytes in total and then fails.
 type faultWriter struct {
 	limit      int
-	short      bool // fail with io.ErrShortWrite instead of the sentinel
-	full       bool // the failing Write accepts its whole chunk and returns (len(p), err)
+	short      bool  // fail with io.ErrShortWrite instead of the sentinel
+	full       bool  // the failing Write accepts its whole chunk and returns (len(p), err)
+	err        error // when set: the error of the failing Write
 	got        []byte
 	failed     bool
 	afterCalls int // Write calls (with data) after the first failure
@@ -46,7 +50,9 @@ func (w *faultWriter) Write(p []byte) (int, error) {
 	}
 	w.got = append(w.got, p[:room]...)
 	w.failed = true
-	if w.short {
+	if w.err != nil {
+		w.firstErr = w.err
+	} else if w.short {
 		w.firstErr = io.ErrShortWrite
 	} else {
 		w.firstErr = errSentinel
@@ -73,6 +79,7 @@ func init() {
 		Level: "fault_enumeration",
 		Rule: "every module of the corpus (atoms, repo testdata, llvm-stress programs in thorough) is written with WriteTo to a writer that fails after exactly k accepted bytes, " +
 			"for every k in [0,len] (all offsets when len<=6000, else 400 PRNG offsets plus boundaries), once with a sentinel error, once with io.ErrShortWrite, and once with a writer whose failing call accepts its whole chunk and returns (len(p), err); the corpus includes a synthetic module with a function body of more than 64 KiB; " +
+			"Failure kinds also include the errors of real destinations at 25 offsets per module (io.ErrClosedPipe, EPIPE bare and in *os.PathError, io.EOF, os.ErrClosed, ENOSPC). First output: a second, never-printed parse of every input, and API-built modules whose numbers are still to be assigned (block addresses used from outside the function, metadata definitions with ID -1 attached to a global, a function and an instruction; never printed, or printed and then edited) are written once to a non-failing writer and to writers failing at every offset: what WriteTo wrote is what String() returns afterwards. " +
 			"a case is (module, k, failure kind); it is non-trivial when 0<k<len, i.e. the failure hits in the middle of the output; distinct = distinct (module digest, k, kind)",
 		Gen:           genC19,
 		MinNontrivial: 1000,
@@ -111,7 +118,7 @@ func genC19(ctx *fw.Ctx) []fw.Case {
 // The first WriteTo must write exactly the text String() returns afterwards,
 // for a non-failing writer and for writers failing at every offset.
 func c19APIFirstWriteTo(r *fw.Rec) {
-	build := func(withGlobal, edited bool) *ir.Module {
+	build := func(withGlobal, edited, withMD bool) *ir.Module {
 		m := ir.NewModule()
 		user := m.NewFunc("user", types.I8Ptr)
 		later := m.NewFunc("later", types.I32, ir.NewParam("", types.I32))
@@ -121,8 +128,21 @@ func c19APIFirstWriteTo(r *fw.Rec) {
 		entry.NewBr(target)
 		target.NewRet(v)
 		user.NewBlock("").NewRet(constant.NewBlockAddress(later, target))
+		var slot *ir.Global
 		if withGlobal {
-			m.NewGlobalDef("slot", constant.NewBlockAddress(later, target))
+			slot = m.NewGlobalDef("slot", constant.NewBlockAddress(later, target))
+		}
+		if withMD {
+			// metadata definitions the printer is left to number (ID -1), referred to
+			// from what is printed before the metadata section
+			md := &metadata.Tuple{MetadataID: -1, Fields: []metadata.Field{&metadata.String{Value: "unnumbered"}}}
+			md2 := &metadata.Tuple{MetadataID: -1, Fields: []metadata.Field{md}}
+			m.MetadataDefs = append(m.MetadataDefs, md, md2)
+			v.Metadata = append(v.Metadata, &metadata.Attachment{Name: "note", Node: md2})
+			later.Metadata = append(later.Metadata, &metadata.Attachment{Name: "note", Node: md})
+			if slot != nil {
+				slot.Metadata = append(slot.Metadata, &metadata.Attachment{Name: "note", Node: md})
+			}
 		}
 		if edited {
 			_ = m.String()
@@ -131,9 +151,10 @@ func c19APIFirstWriteTo(r *fw.Rec) {
 		return m
 	}
 	for _, withGlobal := range []bool{false, true} {
-		for _, edited := range []bool{false, true} {
-			id := fmt.Sprintf("api/first-writeto/global=%v/printed-then-edited=%v", withGlobal, edited)
-			ref := build(withGlobal, edited)
+		for _, em := range []int{0, 1, 2, 3} {
+			edited, withMD := em&1 != 0, em&2 != 0
+			id := fmt.Sprintf("api/first-writeto/global=%v/printed-then-edited=%v/unnumbered-metadata=%v", withGlobal, edited, withMD)
+			ref := build(withGlobal, edited, withMD)
 			cw := &chunkWriter{}
 			var n int64
 			var werr error
@@ -149,7 +170,7 @@ func c19APIFirstWriteTo(r *fw.Rec) {
 			}
 			bad := false
 			for k := 0; k <= len(T) && !bad; k++ {
-				m := build(withGlobal, edited)
+				m := build(withGlobal, edited, withMD)
 				w := &faultWriter{limit: k}
 				var n int64
 				var werr error
@@ -269,10 +290,30 @@ func runC19(r *fw.Rec, s corpus.Source) {
 		}
 	}
 	nontriv := 0
-	for _, kind := range []string{"sentinel", "shortwrite", "fullcount"} {
+	// errors a real destination gives (the reader of a pipe went away, a closed
+	// file, end of medium): reported like any other error, at a sample of offsets
+	osErrs := map[string]error{
+		"closedpipe":    io.ErrClosedPipe,
+		"epipe":         &os.PathError{Op: "write", Path: "|1", Err: syscall.EPIPE},
+		"syscall-epipe": syscall.EPIPE,
+		"eof":           io.EOF,
+		"closed":        &os.PathError{Op: "write", Path: "out.ll", Err: os.ErrClosed},
+		"enospc":        &os.PathError{Op: "write", Path: "out.ll", Err: syscall.ENOSPC},
+	}
+	kinds := []string{"sentinel", "shortwrite", "fullcount", "closedpipe", "epipe", "syscall-epipe", "eof", "closed", "enospc"}
+	for _, kind := range kinds {
 		short := kind == "shortwrite"
-		for _, k := range offs {
-			w := &faultWriter{limit: k, short: short, full: kind == "fullcount"}
+		koffs := offs
+		if osErrs[kind] != nil && len(koffs) > 24 {
+			// every 1/24th offset plus both ends
+			var sub []int
+			for i := 0; i < 24; i++ {
+				sub = append(sub, offs[i*len(offs)/24])
+			}
+			koffs = append(sub, offs[len(offs)-1])
+		}
+		for _, k := range koffs {
+			w := &faultWriter{limit: k, short: short, full: kind == "fullcount", err: osErrs[kind]}
 			var n int64
 			var werr error
 			if p, msg, _ := fw.Guard(func() { n, werr = m.WriteTo(w) }); p {
@@ -309,9 +350,9 @@ func runC19(r *fw.Rec, s corpus.Source) {
 	}
 	r.NontrivialN("c19/"+dig, nontriv*1)
 	r.Tally("modules", "checked")
-	r.TallyN("offsets", "checked", 3*len(offs))
+	r.TallyN("offsets", "checked", 3*len(offs)+6*min(len(offs), 25))
 	if L <= 6000 {
 		r.Tally("modules", "all_offsets_enumerated")
 	}
-	r.Sample(map[string]interface{}{"module": s.ID, "len": L, "offsets_tried": len(offs), "kinds": []string{"sentinel", "shortwrite", "fullcount"}, "head": fw.Trunc(T, 120)})
+	r.Sample(map[string]interface{}{"module": s.ID, "len": L, "offsets_tried": len(offs), "kinds": kinds, "head": fw.Trunc(T, 120)})
 }
